@@ -73,6 +73,8 @@ pub enum Kind {
     OutAssetProof,
     OutRangeproof,
     OutSurjectionProof,
+    /// blinding key together with its blinder index, on an output that carries no blinding data yet
+    OutBlindingKey,
     // global
     GlobalXpub,
     GlobalScalar,
@@ -90,7 +92,7 @@ pub const INPUT_KINDS: &[Kind] = &[
     // witness-side and bookkeeping fields that do not change the unsigned transaction either
     Kind::PeginWitness, Kind::IssuanceValueRangeproof, Kind::IssuanceKeysRangeproof, Kind::IssuanceBlindValueProof, Kind::IssuanceBlindKeysProof, Kind::BlindedIssuance, Kind::IssuanceAmountNextToComm, Kind::IssuanceKeysNextToComm,
 ];
-pub const OUTPUT_KINDS: &[Kind] = &[Kind::OutBip32, Kind::OutTapKeyOrigin, Kind::OutProprietary, Kind::OutUnknown, Kind::OutRedeemScript, Kind::OutWitnessScript, Kind::OutTapInternalKey, Kind::OutTapTree, Kind::OutValueProof, Kind::OutAssetProof, Kind::OutRangeproof, Kind::OutSurjectionProof];
+pub const OUTPUT_KINDS: &[Kind] = &[Kind::OutBip32, Kind::OutTapKeyOrigin, Kind::OutProprietary, Kind::OutUnknown, Kind::OutRedeemScript, Kind::OutWitnessScript, Kind::OutTapInternalKey, Kind::OutTapTree, Kind::OutValueProof, Kind::OutAssetProof, Kind::OutRangeproof, Kind::OutSurjectionProof, Kind::OutBlindingKey];
 pub const GLOBAL_KINDS: &[Kind] = &[Kind::GlobalXpub, Kind::GlobalScalar, Kind::GlobalProprietary, Kind::GlobalUnknown, Kind::GlobalTxModifiable, Kind::GlobalElementsModifiable];
 
 impl Kind {
@@ -436,8 +438,25 @@ fn apply(ps: &mut Pset, a: &Addition, case_seed: u64) -> Option<(String, Present
         Kind::OutValueProof => out_single!(blind_value_proof, Box::new(p.pick(&pl.rangeproofs).clone())),
         Kind::OutAssetProof => out_single!(blind_asset_proof, Box::new(p.pick(&pl.surjproofs).clone())),
         // proofs on an output that is not marked for blinding (on a marked one the format demands all blinding data or none)
+        // (outputs at even positions may receive stray proofs, outputs at odd positions a blinding key: never both, so that
+        // no merged output ends up marked with incomplete blinding data)
+        Kind::OutBlindingKey => {
+            if n_out == 0 || (a.index % n_out) % 2 == 0 {
+                return None;
+            }
+            let idx = a.index % n_out;
+            let o = &ps.outputs()[idx];
+            if o.blinding_key.is_some() || o.blinder_index.is_some() || o.amount_comm.is_some() || o.asset_comm.is_some() || o.value_rangeproof.is_some() || o.asset_surjection_proof.is_some() || o.ecdh_pubkey.is_some() {
+                return None;
+            }
+            let k = psetgen::btc_pubkey(&mut p);
+            let bi = p.below(4) as u32;
+            ps.outputs_mut()[idx].blinding_key = Some(k);
+            ps.outputs_mut()[idx].blinder_index = Some(bi);
+            Some((name, Box::new(move |m: &Pset| m.outputs().get(idx).map(|o| o.blinding_key == Some(k) && o.blinder_index == Some(bi)).unwrap_or(false)) as Present))
+        }
         Kind::OutRangeproof | Kind::OutSurjectionProof => {
-            if n_out == 0 || ps.outputs()[a.index % n_out].blinding_key.is_some() {
+            if n_out == 0 || (a.index % n_out) % 2 == 1 || ps.outputs()[a.index % n_out].blinding_key.is_some() {
                 return None;
             }
             if a.kind == Kind::OutRangeproof {
